@@ -63,7 +63,8 @@ type Case struct {
 	V1          bool    `json:"v1,omitempty"`
 	Frames      []Frame `json:"frames,omitempty"`
 	K           int     `json:"k"`          // byte offset of the fault; -1 = no fault
-	Fault       string  `json:"fault"`      // eof, err, corrupt, garbage
+	Fault       string  `json:"fault"`      // eof, err, corrupt, garbage, corrupt_open (corruption after which the stream stays open)
+	Mask        int     `json:"mask,omitempty"` // corrupt / corrupt_open: XOR mask for the byte at K (0 = 0xff)
 	WriteFailAt int     `json:"write_fail"` // -1 = writes work
 	RunIDs      []string `json:"run_ids,omitempty"`
 	Serial      bool     `json:"serial,omitempty"`
@@ -119,6 +120,7 @@ type faultChannel struct {
 	closed   bool
 	given    bytes.Buffer
 	garbage  []byte
+	mask     byte
 	// write side
 	wPipeW      *io.PipeWriter
 	written     int
@@ -126,7 +128,7 @@ type faultChannel struct {
 }
 
 func newFaultChannel(frames []Frame, k int, fault string, writeFailAt int) *faultChannel {
-	c := &faultChannel{frames: frames, k: k, fault: fault, writeFailAt: writeFailAt, started: map[string]bool{}}
+	c := &faultChannel{frames: frames, k: k, fault: fault, writeFailAt: writeFailAt, started: map[string]bool{}, mask: 0xff}
 	c.cond = sync.NewCond(&c.mu)
 	pr, pw := io.Pipe()
 	c.wPipeW = pw
@@ -192,9 +194,9 @@ func (c *faultChannel) Read(p []byte) (int, error) {
 		if c.faulted && c.fault == "err" {
 			return 0, errors.New("injected read error")
 		}
-		corrupted := c.fault == "corrupt" && c.k >= 0 && c.pos > c.k
+		corrupted := (c.fault == "corrupt" || c.fault == "corrupt_open") && c.k >= 0 && c.pos > c.k
 		if c.fi >= len(c.frames) {
-			if corrupted {
+			if corrupted && c.fault == "corrupt" {
 				// a stream that turned to garbage is followed by its end (the peer goes away): a corrupted length
 				// field can make any reader wait for bytes that will never come on a silent connection
 				return 0, io.EOF
@@ -212,9 +214,10 @@ func (c *faultChannel) Read(p []byte) (int, error) {
 				released = c.anyStarted
 			}
 		}
-		if corrupted {
-			released = true // after the corruption the rest of the transcript simply follows
+		if corrupted && c.fault == "corrupt" {
+			released = true // after the corruption the rest of the transcript simply follows, then the stream ends
 		}
+		// (corrupt_open keeps causality: the stream stays open, so a work-done must not overtake its work-start)
 		if !released && c.fo == 0 {
 			if c.writeBroken && c.k >= 0 && !c.faulted {
 				// the client can no longer cause anything: the peer's side of the premise (a broken server
@@ -235,8 +238,8 @@ func (c *faultChannel) Read(p []byte) (int, error) {
 			n = c.k - c.pos
 		}
 		copy(p, avail[:n])
-		if c.fault == "corrupt" && c.k >= c.pos && c.k < c.pos+n {
-			p[c.k-c.pos] ^= 0xff
+		if (c.fault == "corrupt" || c.fault == "corrupt_open") && c.k >= c.pos && c.k < c.pos+n {
+			p[c.k-c.pos] ^= c.mask
 		}
 		c.given.Write(p[:n])
 		c.pos += n
@@ -367,6 +370,9 @@ func workerFn(raw json.RawMessage) json.RawMessage {
 	}
 	ch := newFaultChannel(c.Frames, c.K, c.Fault, c.WriteFailAt)
 	ch.v1, ch.runIDs = c.V1, c.RunIDs
+	if c.Mask != 0 {
+		ch.mask = byte(c.Mask)
+	}
 	client := atp.NewClient(ch)
 	var serr error
 	done, p := within(4*time.Second, func() { _, serr = client.ReadSchema() })
@@ -467,7 +473,9 @@ func referenceReading(stream []byte, v1 bool) (helloOK bool, workDone map[string
 			v1Done = append(v1Done, wd)
 		}
 	}
-	hello, _, msgs, _ := atpx.ParseOutput(stream)
+	// lenient: the client carries on behind a frame whose payload it cannot decode, so the frames that follow are
+	// still frames it may act on
+	hello, _, msgs, _ := atpx.ParseOutputLenient(stream)
 	if hello == nil {
 		return false, workDone, nil
 	}
@@ -549,7 +557,8 @@ func assess(c Case, body json.RawMessage, crash *sup.Crash, restart func()) (str
 				if f.Run != e.Run || f.Kind != "2" || b > len(r.Stream) {
 					continue
 				}
-				untouched := c.K < 0 || (c.Fault == "corrupt" && (c.K < a || c.K >= b)) || (c.Fault != "corrupt" && b <= c.K)
+				isCorrupt := c.Fault == "corrupt" || c.Fault == "corrupt_open"
+				untouched := c.K < 0 || (isCorrupt && (c.K < a || c.K >= b)) || (!isCorrupt && b <= c.K)
 				if !untouched || !bytes.Equal(r.Stream[a:b], f.Bytes) {
 					continue
 				}
@@ -699,6 +708,19 @@ func TestFaults(t *testing.T) {
 				run(c, "fault_"+fk)
 			}
 		}
+		// corruption that leaves every frame well-formed at its old boundaries but makes one frame undecodable as a
+		// runtime message (wrong type of a header field, wrong top-level type): no reader can be left waiting for
+		// missing bytes, the garbage is observable, so the calls must return although the stream STAYS OPEN
+		for k := phase; k < total; k += stride {
+			for _, mask := range []int{0x01, 0x02, 0x04, 0x08, 0x10, 0x20, 0x40, 0x80, 0xff} {
+				if !v1 && openEligible(frames, k, byte(mask)) {
+					c := base
+					c.K, c.Fault, c.Mask = k, "corrupt_open", mask
+					ev.Class("corrupt_open_cases", 1)
+					run(c, "fault_corrupt_open")
+				}
+			}
+		}
 		for i := 0; i < 6; i++ {
 			c := base
 			c.WriteFailAt = rapid.IntRange(0, 200).Draw(rt, "writeFailAt")
@@ -711,6 +733,31 @@ func TestFaults(t *testing.T) {
 			run(c, "write_fails")
 		}
 	})
+}
+
+// openEligible reports whether XOR-ing the byte at stream offset k with mask leaves the frame it falls into a single
+// well-formed CBOR item of the same length that does not decode as a runtime message any more (default, lenient
+// decoding: unknown fields alone do not count). Hello frames are excluded.
+func openEligible(frames []Frame, k int, mask byte) bool {
+	pos := 0
+	for _, f := range frames {
+		a, b := pos, pos+len(f.Bytes)
+		pos = b
+		if k < a || k >= b {
+			continue
+		}
+		if f.Kind == "hello" {
+			return false
+		}
+		g := append([]byte(nil), f.Bytes...)
+		g[k-a] ^= mask
+		if cbor.Wellformed(g) != nil {
+			return false
+		}
+		var m atp.DecodedRuntimeMessage
+		return cbor.Unmarshal(g, &m) != nil
+	}
+	return false
 }
 
 // TestHelloVariants: hello messages that must make ReadSchema fail cleanly.
